@@ -2,8 +2,13 @@
 package main
 
 import (
+	"bytes"
 	"fmt"
+	"io"
 	"os"
+	"os/exec"
+	"path/filepath"
+	"regexp"
 	"strings"
 	"time"
 
@@ -58,6 +63,9 @@ func main() {
 		fmt.Fprintln(os.Stderr, "unknown check", id)
 		os.Exit(2)
 	}
+	if os.Getenv("VCHECK_SUPERVISED") == "" && tier != "replay" {
+		os.Exit(supervise(id))
+	}
 	sched.Virtual = true
 	if tier == "replay" {
 		if len(os.Args) < 4 {
@@ -69,4 +77,82 @@ func main() {
 	c := core.NewCtx(id, tier, ch.Level)
 	ch.Run(c)
 	os.Exit(c.Finish())
+}
+
+
+// supervise runs the check in a child process. Executions of olric code normally happen in crash-
+// isolated workers, but a few run in the check's main process (initial states, trace export for the
+// conformance replay); olric starts goroutines of its own (the pub/sub runner of a detached
+// connection), and a panic there cannot be recovered: it takes the whole process down - exactly what
+// it would do to a member. When the child dies of a Go panic / fatal error whose panicking goroutine
+// was executing olric code (first frame of the module that is not harness code), that is reported as
+// a violation of the property being checked, with the trace as the replay artefact; any other death
+// stays a harness failure (exit 2, no verdict).
+func supervise(id string) int {
+	cmd := exec.Command(os.Args[0], os.Args[1:]...)
+	cmd.Env = append(os.Environ(), "VCHECK_SUPERVISED=1")
+	cmd.Stdin, cmd.Stdout = os.Stdin, os.Stdout
+	var tail bytes.Buffer
+	cmd.Stderr = io.MultiWriter(os.Stderr, &limited{b: &tail, max: 1 << 20})
+	err := cmd.Run()
+	if err == nil {
+		return 0
+	}
+	code := 2
+	if ee, ok := err.(*exec.ExitError); ok {
+		code = ee.ExitCode()
+	}
+	if code == 0 || code == 1 {
+		return code
+	}
+	site := olricPanicSite(tail.String())
+	if site == "" {
+		return 2
+	}
+	dir := filepath.Join(core.VerifDir, "replay")
+	os.MkdirAll(dir, 0o755)
+	file := filepath.Join(dir, id+"-member-crash.txt")
+	os.WriteFile(file, []byte("check "+id+" "+strings.Join(os.Args[2:], " ")+": the process executing olric members died; panicking goroutine in olric code at "+site+"\n\n"+tail.String()), 0o644)
+	fmt.Printf("VIOLATION property=%s replay=%s\n  key=%s/member-process-crash/%s\n  olric code panicked in a goroutine of its own (unrecoverable: a member process dies): %s\n", id, file, id, site, site)
+	return 1
+}
+
+type limited struct {
+	b   *bytes.Buffer
+	max int
+}
+
+func (l *limited) Write(p []byte) (int, error) {
+	if l.b.Len() < l.max {
+		l.b.Write(p)
+	}
+	return len(p), nil
+}
+
+var frameRe = regexp.MustCompile(`(?m)^(github\.com/olric-data/olric[^\s(]*)`)
+
+// olricPanicSite returns the function of the first olric-module frame of the panicking goroutine if
+// that frame is olric code proper (not the harness, which lives under internal/verif), else "".
+func olricPanicSite(stderr string) string {
+	i := strings.Index(stderr, "panic: ")
+	if j := strings.Index(stderr, "fatal error: "); j >= 0 && (i < 0 || j < i) {
+		i = j
+	}
+	if i < 0 {
+		return ""
+	}
+	rest := stderr[i:]
+	g := strings.Index(rest, "\ngoroutine ")
+	if g < 0 {
+		return ""
+	}
+	block := rest[g+1:]
+	if e := strings.Index(block, "\n\n"); e >= 0 {
+		block = block[:e]
+	}
+	m := frameRe.FindString(block)
+	if m == "" || strings.Contains(m, "/internal/verif/") {
+		return ""
+	}
+	return m
 }
